@@ -92,7 +92,7 @@ var bigObjects = func() []object {
 	}
 }()
 
-const hugeJSON = 60000 // an object with more JSON than this is used up to depth 2 only
+const hugeBytes = 60000 // an object with more JSON / a layer with more text than this is used in chains up to hugeDepth only
 
 type stressObj struct {
 	*object
@@ -109,8 +109,11 @@ type stressWalk struct {
 	depth         int
 	maxStress     int
 	minStress     int // > 0: only chains with at least so many stress layers belong to this walk
+	hugeDepth     int
 	plain, stress []layer
 }
+
+func isHuge(l layer) bool { return l.Rep*(len(l.Pre)+len(l.Suf)) > hugeBytes }
 
 func (w *stressWalk) explore(run *report.Run, err error, plainMsg string, layers []layer, nStress, kinds int, shaped bool, cnt *counters) {
 	d := len(layers)
@@ -164,7 +167,7 @@ func (w *stressWalk) explore(run *report.Run, err error, plainMsg string, layers
 		}
 	}
 	usable := func(o *stressObj) bool {
-		if o.jsonLen > hugeJSON && d > 2 {
+		if o.jsonLen > hugeBytes && d > w.hugeDepth {
 			return false
 		}
 		if w.minStress > 0 {
@@ -195,11 +198,22 @@ func (w *stressWalk) explore(run *report.Run, err error, plainMsg string, layers
 	if d >= w.depth {
 		return
 	}
+	if w.base != nil && w.base.jsonLen > hugeBytes && d >= w.hugeDepth {
+		return
+	}
+	for _, l := range layers {
+		if isHuge(l) && d >= w.hugeDepth {
+			return
+		}
+	}
 	for _, l := range w.plain {
 		w.explore(run, l.wrap(err), l.Pre+plainMsg+l.Suf, append(layers, l), nStress, kinds, shaped || l.Shape != "", cnt)
 	}
 	if nStress < w.maxStress {
 		for _, l := range w.stress {
+			if isHuge(l) && d+1 > w.hugeDepth {
+				continue
+			}
 			pre, suf := l.texts()
 			w.explore(run, l.wrap(err), pre+plainMsg+suf, append(layers, l), nStress+1, kinds|layerKind(l), shaped, cnt)
 		}
@@ -244,25 +258,25 @@ func runStress(run *report.Run, osRoots []root, total *counters, repeats *int64)
 		objs = append(objs, &stressObj{objectByName(o.name), len(b), isBig})
 	}
 
-	depth := run.Pick(2, 3)
+	depth, hugeDepth := run.Pick(2, 3), run.Pick(1, 2)
 	var walks []*stressWalk
 	for ci, c := range classes {
 		if !c.coded {
 			continue
 		}
 		rt := root{"", ci, c.err}
-		walks = append(walks, &stressWalk{rt: rt, outer: objs, depth: depth, maxStress: 1, plain: alphabet, stress: stress})
+		walks = append(walks, &stressWalk{rt: rt, outer: objs, depth: depth, maxStress: 1, hugeDepth: hugeDepth, plain: alphabet, stress: stress})
 		for _, o := range objs {
-			walks = append(walks, &stressWalk{rt: rt, base: o, depth: depth, maxStress: 1, plain: alphabet, stress: stress})
+			walks = append(walks, &stressWalk{rt: rt, base: o, depth: depth, maxStress: 1, hugeDepth: hugeDepth, plain: alphabet, stress: stress})
 		}
 		if run.Thorough() { // two stress layers on top of each other
-			walks = append(walks, &stressWalk{rt: rt, outer: objs, depth: 2, maxStress: 2, minStress: 2, stress: stress})
-			walks = append(walks, &stressWalk{rt: rt, base: objs[0], depth: 2, maxStress: 2, minStress: 2, stress: stress})
+			walks = append(walks, &stressWalk{rt: rt, outer: objs, depth: 2, maxStress: 2, minStress: 2, hugeDepth: hugeDepth, stress: stress})
+			walks = append(walks, &stressWalk{rt: rt, base: objs[0], depth: 2, maxStress: 2, minStress: 2, hugeDepth: hugeDepth, stress: stress})
 		}
 	}
 	for _, rt := range osRoots {
-		walks = append(walks, &stressWalk{rt: rt, depth: 1, maxStress: 1, stress: stress})
-		walks = append(walks, &stressWalk{rt: rt, base: objs[0], depth: 1, maxStress: 1, stress: stress})
+		walks = append(walks, &stressWalk{rt: rt, depth: 1, maxStress: 1, hugeDepth: 1, stress: stress})
+		walks = append(walks, &stressWalk{rt: rt, base: objs[0], depth: 1, maxStress: 1, hugeDepth: 1, stress: stress})
 	}
 
 	type unit struct {
@@ -304,7 +318,7 @@ func runStress(run *report.Run, osRoots []root, total *counters, repeats *int64)
 					if u.sample {
 						e := l.wrap(err)
 						run.Sample(map[string]any{"case": kase{Class: classes[w.rt.ci].name, Layers: []layer{l}, Embed: embNone},
-							"chain_text": clip(e.Error()), "wrapped_text": clip(gerrors.GRPCWrap(e).Error())})
+							"chain_text": clipN(e.Error(), 400), "wrapped_text": clipN(gerrors.GRPCWrap(e).Error(), 400)})
 					}
 				}
 				run.Eval(int(cnt.tuples - before))
@@ -342,9 +356,12 @@ func stressMessages() (out []string) {
 }
 
 // clip shortens a text for a message or a sample (the witness keeps the complete case).
-func clip(s string) string {
-	if len(s) <= 3000 {
+func clip(s string) string { return clipN(s, 3000) }
+
+func clipN(s string, n int) string {
+	if len(s) <= n {
 		return s
 	}
-	return fmt.Sprintf("%s ...[%d bytes]... %s", strings.ToValidUTF8(s[:1400], ""), len(s)-2800, strings.ToValidUTF8(s[len(s)-1400:], ""))
+	k := n/2 - 50
+	return fmt.Sprintf("%s ...[%d bytes]... %s", strings.ToValidUTF8(s[:k], ""), len(s)-2*k, strings.ToValidUTF8(s[len(s)-k:], ""))
 }
